@@ -30,11 +30,13 @@ ASSUMPTIONS = [
 FLOORS = {'quick': {'nontrivial': 10, 'runs': 100, 'labels_checked': 100,
                     'wipe_commands': 3, 'mark_commands': 3,
                     'marker_counts_checked': 60,
-                    'tail_schedules': 3},
+                    'tail_schedules': 3,
+                    'mark_recorded_attempts': 10},
           'thorough': {'nontrivial': 150, 'runs': 1500,
                        'labels_checked': 1500, 'wipe_commands': 40,
                        'mark_commands': 40, 'marker_counts_checked': 800,
-                       'tail_schedules': 40}}
+                       'tail_schedules': 40,
+                       'mark_recorded_attempts': 120}}
 SIZES = {'quick': 32, 'thorough': 400}
 TIMEOUT = {'quick': 170, 'thorough': 1700}
 
@@ -351,9 +353,37 @@ def run_case(desc):
                              now.count(l) == 1)
             if ahead:
                 choices += ['mark_ahead'] * 6
+            # marking a label that is already recorded (by this or an older
+            # version) must be refused and leave the log as it is
+            remark = sorted(l for l in recorded_by_run
+                            if l[0] in apps and now.count(l) == 1)
+            if remark:
+                choices += ['mark_recorded'] * 2
             if wipable:
                 choices.append('wipe_only')
             kind = rng.choice(choices)
+            if kind == 'mark_recorded':
+                a, l = rng.choice(remark)
+                stats['runs'] += 1
+                av = dict(ver)
+                av['app3'] = 0
+                evm = proj.run('mark', db=db, app_versions=av,
+                               apps=inst['apps'],
+                               args={'app': a, 'labels': [l]})
+                schedule.append({'kind': 'mark_recorded', 'label': [a, l]})
+                stats['mark_recorded_attempts'] = stats.get(
+                    'mark_recorded_attempts', 0) + 1
+                rows = [(x, y) for x, y, _v in proj.evolution_rows(db)]
+                if rows.count((a, l)) != 1 or (
+                        not evm.get('driver_error') and
+                        evm['outcome']['ok']):
+                    items.append({'type': 'RECORDED_LABEL_MARKED_AGAIN',
+                                  'label': [a, l],
+                                  'count': rows.count((a, l)),
+                                  'command_ok': bool(
+                                      not evm.get('driver_error') and
+                                      evm['outcome']['ok'])})
+                continue
             if kind == 'mark_ahead':
                 a, v2, lab = rng.choice(ahead)
                 ver[a] = v2
